@@ -41,7 +41,7 @@ def main(argv):
             print(f"{pid}-{k}: no evaluation record")
             bad += 1
             continue
-        preserving = kinds[k].startswith("behaviour-preserving")
+        preserving = kinds[k].startswith(("behaviour-preserving", "property-preserving", "benign"))
         as_expected = (not e["fired"] and not e["errors"]) if preserving else bool(e["fired"])
         confirmed = e.get("applies") and e.get("demo_without") == 0 and \
             (e.get("demo_with") == 0 if preserving else e.get("demo_with") not in (0, None)) and \
